@@ -44,6 +44,8 @@ run (`Thm.C04.path_lookup_as_modelled`).
 -/
 namespace RsslVerif.Model.FixpointNames
 
+deriving instance DecidableEq for Except
+
 /-- `ScopeSymbol`, as far as lookup distinguishes the variants -/
 inductive Sym where
   /-- `Function(id)`: gathered into the overload set -/
